@@ -125,3 +125,5 @@ func (o *vC07OneByte) Read(p []byte) (int, error) {
 }
 
 var ioEOF = func() error { _, err := bytes.NewReader(nil).Read(make([]byte, 1)); return err }()
+
+func FuzzVerifC07Json(f *testing.F) { vC07FuzzTarget(f, TestVerifC07Json) }
